@@ -335,7 +335,7 @@ func c02Scenarios(tier string) []*Scenario {
 					hs := wl.Handler
 					sc := &Scenario{Name: fmt.Sprintf("c02/i4/%s/rev=%v/opts=%04b/creds=%d", shape, rev, mask, creds), Prop: "C02",
 						Desc: fmt.Sprintf("%s RPC with call options {Header:%v Trailer:%v Peer:%v WithTunnelChannel:%v} and per-RPC credentials mode %d (0 none, 1 with outgoing metadata, 2 without any outgoing metadata)", shape, c.HeaderOpt, c.TrailerOpt, c.PeerOpt, c.ChanOpt, creds),
-						Opt: Options{Level: "io", Bound: 0},
+						Opt:  Options{Level: "io", Bound: 0},
 						Run: func(w *World) {
 							w.Scripts["*"] = &hs
 							RunWorkloads(w, TunCfg{Reverse: rev}, []Workload{wl})
@@ -386,7 +386,7 @@ func c02Scenarios(tier string) []*Scenario {
 
 func init() {
 	register(&PropDef{ID: "C02", Level: "model_checking",
-		Rule: "input enumeration (17 codes x messages x details; 6^3 request/header/trailer metadata maps; all handler op sequences of length <= 3 (quick) / 4 (thorough) over {SetHeader h1/h2, SendHeader, Send, SetTrailer t1/t2} x {OK,error}; all call-option subsets x credentials modes) at the default schedule, plus deviation-bounded DFS (D<=2 quick, 3 thorough) at lock/atomic/channel granularity of the client's completion path; oracle META: caller-visible status, Header(), Trailer(), option targets and handler-visible request metadata equal the scripted values, with Trailer()/targets read immediately after the terminal result",
+		Rule:      "input enumeration (17 codes x messages x details; 6^3 request/header/trailer metadata maps; all handler op sequences of length <= 3 (quick) / 4 (thorough) over {SetHeader h1/h2, SendHeader, Send, SetTrailer t1/t2} x {OK,error}; all call-option subsets x credentials modes) at the default schedule, plus deviation-bounded DFS (D<=2 quick, 3 thorough) at lock/atomic/channel granularity of the client's completion path; oracle META: caller-visible status, Header(), Trailer(), option targets and handler-visible request metadata equal the scripted values, with Trailer()/targets read immediately after the terminal result",
 		Globals:   []func(*Scenario, *World, *Exec) []Violation{ProtoMonitor},
 		Scenarios: c02Scenarios})
 }
